@@ -1,7 +1,7 @@
 #!/bin/bash
 # tools/mutrun.sh <patch.diff> <property>... : run the quick checks against google/wire WITH a seeded change.
 # The change is applied to a scratch worktree of /repo (never to /repo itself) and the checks are pointed at it
-# through VERIF_REPO; the worktree is reset afterwards. Evidence files written meanwhile are restored from git.
+# through VERIF_REPO; the worktree is reset afterwards. Evidence files of these runs go to a throw-away directory (VERIF_EVIDENCE_DIR).
 # VALIDATE=1 additionally runs the pinned test suite on the changed tree first.
 set -u
 patch="$(readlink -f "$1")"; shift
@@ -10,7 +10,8 @@ WT=${MUT_WT:-/tmp/verif-mut-wt}
 if [ ! -e "$WT/.git" ]; then git -C /repo worktree prune; git -C /repo worktree add -q --detach "$WT" HEAD || exit 2; fi
 git -C "$WT" checkout -q --detach "$(git -C /repo rev-parse HEAD)" && git -C "$WT" checkout -q -- . && git -C "$WT" clean -qfd
 git -C "$WT" apply "$patch" || { echo "patch does not apply" >&2; exit 2; }
-trap 'git -C "$WT" checkout -q -- . ; git -C "$WT" clean -qfd; git -C /verif checkout -- evidence 2>/dev/null' EXIT
+export VERIF_EVIDENCE_DIR=$(mktemp -d /tmp/verif-mut-evidence-XXXXXX)
+trap 'git -C "$WT" checkout -q -- . ; git -C "$WT" clean -qfd; rm -rf "$VERIF_EVIDENCE_DIR"' EXIT
 export GOFLAGS=-mod=mod GOPROXY=off GOSUMDB=off GOTOOLCHAIN=local
 if [ -n "${VALIDATE:-}" ]; then
   (cd "$WT" && go build ./... ) || { echo "== INVALID: does not build"; exit 3; }
